@@ -20,6 +20,7 @@ pub fn check() -> Check {
             assumptions: vec![
                 "wall-clock bounds with stated slack; a timer off by less than the slack passes",
                 "window scenarios are skipped in the last two minutes of an hour",
+                "the local time zone of a worker process is set through TZ (UTC, +12 h, -9 h, +5:30 h by worker), the expected hour is read back through localtime_r",
                 "the set-up writes' own effect on the statistics is computed by the harness's independent record-size formula and cross-checked against verif_dump before the scenario is judged",
             ],
             death_is_violation: true,
@@ -267,6 +268,15 @@ fn scenario(ctx: &Ctx, case: u64, out: &mut Out) {
 }
 
 fn worker(ctx: &Ctx, out: &mut Out) {
+    // the window policy goes by the local hour: three quarters of the workers run in a time zone whose
+    // hour differs from UTC's (set before anything else runs in this process)
+    let tz = ["UTC0", "VRF-12", "VRF+9", "VRF-5:30"][(ctx.shard % 4) as usize];
+    std::env::set_var("TZ", tz);
+    extern "C" {
+        fn tzset();
+    }
+    unsafe { tzset() };
+    out.class_counter(&format!("tz:{}", tz));
     for case in ctx.cases(ctx.tier.pick(144, 2880)) {
         ctx.checkpoint(out);
         ctx.breadcrumb(case, "scenario");
